@@ -7,6 +7,7 @@ examined fact differs) and compare() must raise, in both argument orders."""
 import io
 import os
 import sys
+import shutil
 import tempfile
 import contextlib
 
@@ -383,6 +384,35 @@ def run_case(ctx, i, rng):
                 ctx.violation("clone-not-registered-in-namespace" if isinstance(ex, StopIteration) else "rejects-faithful-copy:clone",
                               "compare(%s) raised %s: %s | %s" % (tag, type(ex).__name__, str(ex)[:120], st))
                 return
+    # write-then-read in the netlist's own format (EDIF): the re-read netlist is a faithful copy
+    d = tempfile.mkdtemp(prefix="c20_")
+    try:
+        if i % 4 == 1:
+            import glob
+            fs = sorted(glob.glob(os.path.join(common.REPO, "example_netlists", "EDIF_netlists", "*.edf.zip")))
+            fs = [f for f in fs if 0 < os.path.getsize(f) <= 4000]
+            src = sdn.parse(fs[rng.randrange(len(fs))])
+            tag0 = "bundled"
+        else:
+            src, _ = rebuild(n)
+            tag0 = "generated"
+        f = os.path.join(d, "x.edf")
+        try:
+            sdn.compose(src, f)
+            back = sdn.parse(f)
+        except Exception as ex:  # noqa: BLE001 - C03's business
+            ctx.count("edif_roundtrip_failed:%s" % type(ex).__name__)
+            back = None
+        if back is not None:
+            for x, y, tag in ((src, back, "edif-roundtrip"), (back, src, "edif-roundtrip-swapped")):
+                ex = run_compare(x, y)
+                ctx.count("positive_compares")
+                ctx.count("positive_edif_roundtrip")
+                if ex is not None:
+                    ctx.violation("rejects-faithful-copy:edif-roundtrip:%s" % tag0, "compare(%s) raised %s: %s | %s" % (tag, type(ex).__name__, str(ex)[:160], st))
+                    return
+    finally:
+        shutil.rmtree(d, ignore_errors=True)
     # negative side
     kinds = 0
     for mut in MUTATIONS:
